@@ -72,7 +72,7 @@ def tb1(repo, cname):
     return problems
 
 
-TB3_TRIAGE_KEY = "T3|lex_multichar_comments|NotImplementedError from raise NotImplementedError [if p not in allowed_pairs]"
+TB3_TRIAGE_KEY = "T3|lex_multichar_comments|NotImplementedError from raise NotImplementedError*"
 
 
 def lexer_allowed_pairs(repo):
